@@ -10,6 +10,7 @@ from __future__ import annotations
 
 import copy
 import itertools
+import os
 import time
 
 import numpy as np
@@ -878,6 +879,49 @@ def _symbolic_dispatcher(I, nodes, deg):
         return I.InterpolatorDispatcher(G(nodes), deg, mode_N=False)
     finally:
         np.ones = orig
+
+
+# process-global state that exists on the pinned tree, each with the reason it is harmless or the contract
+# that covers it: (file, function, substring of the report)
+KNOWN_PROCESS_STATE = (
+    ("log.py", "setup", "logger.handlers", "log handlers: not read by any computation"),
+    ("log.py", "setup", "ekologger.handlers", "log handlers: not read by any computation"),
+    ("coefficient_functions/heavy/n3lo/__init__.py", "interpolator", "interpolators[grid_name]", "memo of the N3LO tables: key = file name, determined by all arguments (contract C14/other caches)"),
+)
+
+
+def no_process_state_lemma(rep):
+    """Frame lemma behind every 'independent of what was computed before' argument (C14's induction, the
+    per-class obligations of C03/C04/C08, the per-run obligations of C16/C19): no function of the package
+    writes process-global state -- module-level objects, class objects, class-level mutables, memoising
+    decorators, mutable defaults (contracts/frame_ast.py, syntactic, all paths).  One obligation per module.
+    A new site is NOT by itself a violation (a completely keyed global memo is correct code): the lemma is then
+    not established for that module and the obligation is *undecided* -- the histories that the concrete
+    history obligations enumerate decide whether a failing history exists."""
+    from contracts import frame_ast
+    from pvc import boot as _boot
+    from pvc.core import Ob, PROVED, UNDECIDED
+
+    root = os.path.join(_boot.SRC, "yadism")
+    sites = frame_ast.scan_package(root)
+    by_mod = {}
+    for rel, fn, line, what in sites:
+        known = next((k for k in KNOWN_PROCESS_STATE if k[0] == rel and k[1] == fn and k[2] in what), None)
+        by_mod.setdefault(rel, []).append((fn, line, what, known[3] if known else None))
+    mods = []
+    for dp, _, fs in os.walk(root):
+        for f in sorted(fs):
+            if f.endswith(".py"):
+                mods.append(os.path.relpath(os.path.join(dp, f), root))
+    rep.extra["process_state_modules_scanned"] = len(mods)
+    for rel in sorted(mods):
+        rep.cases += 1
+        new = [(fn, line, what) for fn, line, what, known in by_mod.get(rel, []) if known is None]
+        known = [(fn, what, why) for fn, line, what, why in by_mod.get(rel, []) if why is not None]
+        if new:
+            rep.add(Ob(f"{rep.pid}/no-process-state/{rel}", "frame", UNDECIDED, "ast", 0, "process-global state written by " + "; ".join(f"{fn} (line {line}): {what}" for fn, line, what in new[:4]) + " -- independence of earlier requests / runs in the same interpreter is not established for this module"))
+        else:
+            rep.add(Ob(f"{rep.pid}/no-process-state/{rel}", "frame", PROVED, "ast", 0, "no write to module-level objects, class objects, class-level mutables; no memoising decorator; no mutable default" + (f"; known sites under their own contract: {known}" if known else "")))
 
 
 
